@@ -251,7 +251,7 @@ def check_handles(ctx, fn, rule='R-PAIR', returned_owner_ok=True):
         ctx.explored['cfg_edges'] += len(edges)
         # exits: edges into the exit block
         rets = [n for n in fn.walk() if n.k == 'ReturnStmt']
-        rets.sort(key=lambda n: n.id)
+        rets.sort(key=lambda n: n.pos)
         for (b, k), st in sorted(edges.items()):
             blk = g.blocks[b]
             if blk.s[k] != g.exit:
